@@ -104,6 +104,7 @@ func c09Inputs(tier string) []c09Input {
 	add("encode-json-map", "yaml", m("f", m("$encode", "json", "b", 1, "a", m("z", 1, "y", 2), "c", 3)))
 	add("encode-yaml-map", "json", m("f", m("$encode", "yaml", "b", 1, "a", m("z", 1, "y", 2), "c", 3)))
 	add("encode-toml-map", "json", m("f", m("$encode", "toml", "b", 1, "a", m("z", 1, "y", 2), "c", 3)))
+	add("encode-sha256-base64", "json", m("h", m("$encode", "sha256", "$value", "abc"), "g", m("$encode", "sha256", "$value", "abc"), "b", m("$encode", "base64", "$value", "abc"), "s", m("$encode", []any{"json", "sha256"}, "k", 1)))
 	// interpolation, env, invalid directives in several keys (which error wins must not matter)
 	add("interp", "json", m("s", `$"{a}-{b.c}"`, "a", "v", "b", m("c", 7), "t", `$"{s}"`))
 	add("two-bad-directives", "json", m("a", "$bogus", "b", "$required", "c", m("$nope", 1)))
